@@ -21,7 +21,8 @@ def canon(x):
     return {'t': 'other', 'v': repr(x)[:100]}
 
 
-DTYPES = {'int8': np.int8, 'int16': np.int16, 'int32': np.int32, 'int64': np.int64}
+DTYPES = {'int8': np.int8, 'int16': np.int16, 'int32': np.int32, 'int64': np.int64,
+          'uint8': np.uint8, 'uint16': np.uint16}
 
 
 def build(form, trajs, dtypes=None):
